@@ -22,6 +22,8 @@ NAN = float("nan")
 
 # when True, abs/min/max/where/clip build ite-terms instead of forking
 ITE_MODE = [False]
+# when True, float elements are IEEE binary64 terms (symx.scalar_fp.SFP) instead of exact reals
+FP_MODE = [False]
 
 
 def frac_of(c):
@@ -271,6 +273,9 @@ class SReal:
     # ---- construction ----------------------------------------------------
     @staticmethod
     def of(c):
+        if FP_MODE[0]:
+            from .scalar_fp import SFP
+            return SFP.of(c)
         if isinstance(c, SReal):
             return c
         if isinstance(c, float):
@@ -664,6 +669,9 @@ class SReal:
 
 
 def sqrt(x):
+    if FP_MODE[0]:
+        from .scalar_fp import fsqrt
+        return fsqrt(x)
     x = SReal.of(x)
     v = x.v
     if isinstance(v, float):
@@ -714,6 +722,9 @@ def sqrt(x):
 
 
 def smin(a, b):
+    if FP_MODE[0]:
+        from .scalar_fp import fmin
+        return fmin(a, b)
     a, b = SReal.of(a), SReal.of(b)
     if ITE_MODE[0] and not a.is_special and not b.is_special and (a.is_symbolic or b.is_symbolic):
         c = a <= b
@@ -727,6 +738,9 @@ def smin(a, b):
 
 
 def smax(a, b):
+    if FP_MODE[0]:
+        from .scalar_fp import fmax
+        return fmax(a, b)
     a, b = SReal.of(a), SReal.of(b)
     if ITE_MODE[0] and not a.is_special and not b.is_special and (a.is_symbolic or b.is_symbolic):
         c = a >= b
